@@ -1,8 +1,158 @@
 (** CmdC04.v — command table of the model runner for property C04
     (commands 0400 .. 0499 of [run_cmd]; local number = c mod 100). *)
-From JSL Require Import Base.
+From JSL Require Import Base Instance Dstate Filters World Derived Session Feasible
+     RuleObservers Rules RulesSpec.
+
+(** the filter configuration: a list of filter numbers, or a bare integer for
+    "the solver's default" *)
+Definition dec_fs (v : val) : list fname :=
+  match v with VI _ => default_filters | VL _ => asLof dec_fname v end.
+
+Definition enc_okey (o : option (nat * nat)) : val := vopt enc_key o.
+Definition enc_sel (r : (nat * nat) + exn) : val :=
+  match r with inl k => VL [VI 0; enc_key k] | inr e => VL [VI (exn_code e)] end.
+
+(** 1 — relational replay of one solver run.
+    [I; fs; rule; chooser; [[key; machine] ...]] (the implementation's choices)
+    -> [[per step: available; selection is a best one (spec twin); the model's
+         own selection; machines of the selection; chooser respected;
+         dispatch result] ...; final rows; is_complete; steps accepted] *)
+Definition chooser_okb (I : instance) (c : chooser) (k : nat * nat) (m : nat) : bool :=
+  match c with
+  | CFirst => match kmachines I k with m0 :: _ => (m0 =? m)%nat | [] => false end
+  | CRandom => mem_nat m (kmachines I k)
+  end.
+
+Fixpoint replay (I : instance) (r : Z) (c : chooser) (steps : list val) (w : rwld) (n : nat)
+  : list val * rwld * nat :=
+  match steps with
+  | [] => ([], w, n)
+  | s :: t =>
+      let k := dec_key (vnth s 0) in
+      let m := asN (vnth s 1) in
+      let d := core w in
+      let fs := filt w in
+      let msel := snd (run_rule I (dec_rule (VI r)) 0 w) in
+      let '(w', res) := dispatch r_update I (mkreq (fst k) (snd k) (Some (Z.of_nat m))) w in
+      let out := VL [vlist enc_key (available I d fs);
+                     vbool (rule_bestb I fs d r k);
+                     (if (r <? 4) then enc_sel msel else VL []);
+                     vlist vnat (kmachines I k);
+                     vbool (chooser_okb I c k m);
+                     enc_res (fun _ : unit => VL []) res] in
+      let '(outs, wf, nf) := replay I r c t w' (match res with inl _ => S n | inr _ => n end) in
+      (out :: outs, wf, nf)
+  end.
+
+Definition cmd_replay (v : val) : val :=
+  let I := dec_instance (vnth v 0) in
+  let fs := dec_fs (vnth v 1) in
+  let '(outs, w, n) := replay I (asZ (vnth v 2)) (dec_chooser (vnth v 3)) (asL (vnth v 4))
+                              (init_w robs I fs) 0 in
+  VL [VL outs; enc_sched (sched (core w)); vbool (is_complete I (sched (core w))); vnat n;
+      vlist enc_key (available I (core w) fs)].
+
+(** 2 — the model's own [solve]. [I; fs; rule; chooser; [[draw_rule; draw_chooser] ...]]
+    -> [outcome; rows] *)
+Definition orc_of (l : list val) (t : nat) : nat * nat :=
+  let v := nth t l (VL []) in (asN (vnth v 0), asN (vnth v 1)).
+
+Definition cmd_solve (v : val) : val :=
+  let I := dec_instance (vnth v 0) in
+  let fs := dec_fs (vnth v 1) in
+  let '(w, out) := solve I (dec_rule (vnth v 2)) (dec_chooser (vnth v 3)) fs (orc_of (asL (vnth v 4))) in
+  VL [enc_outcome out; enc_sched (sched (core w))].
+
+(** 3 — [BaseSolver.__call__] with a scripted clock.
+    [I; fs; rule; chooser; draws; t0; t1] -> [outcome; [elapsed]?; solved_by] *)
+Definition cmd_call (v : val) : val :=
+  let I := dec_instance (vnth v 0) in
+  let fs := dec_fs (vnth v 1) in
+  let t0 := asZ (vnth v 5) in
+  let t1 := asZ (vnth v 6) in
+  let '(w, out, md) := call I (dec_rule (vnth v 2)) (dec_chooser (vnth v 3)) fs (orc_of (asL (vnth v 4)))
+                            (fun i => match i with O => t0 | _ => t1 end) in
+  VL [enc_outcome out;
+      match md with Some m => VL [VI (elapsed_time m)] | None => VL [] end;
+      match md with Some m => vlist VI (solved_by m) | None => VL [] end;
+      vlist VI solver_class_name; vlist vnat (map (fun f => match f with
+         | FDominated => 0 | FNonImmediateMachines => 1 | FNonIdleMachines => 2 | FNonImmediateOps => 3 end)%nat
+         default_filters)].
+
+(** 4 — a session over the dispatcher with the scorer's observers.
+    Events:
+      [0 j p m]        dispatch
+      [1]              dispatcher.reset()
+      [2]              MostWorkRemainingScorer()                  -> object index
+      [3 hasj]         DurationObserver(dispatcher, feature_types=JOBS or OPERATIONS) -> index
+      [4 si]           scorer(dispatcher)                         -> score vector
+      [5 rule sel]     built-in rule r                            -> [model selection; sel is a best one]
+      [6 si sel]       score_based_rule(scorer si)                -> [model selection; sel best under MWKR]
+      [7 sfuns sel]    score_based_rule_with_tie_breaker(sfuns)   -> [model selection; sel lexicographically best; vectors]
+      [8 sfun sel]     score_based_rule(sfun)                     -> [model selection; sel best under that score]
+      [9]              snapshot: available, subscribers, objects *)
+Definition enc_selres (r : (nat * nat) + exn) (ok : bool) (extra : val) : val :=
+  VL [enc_sel r; vbool ok; extra].
+
+Definition rule_event (I : instance) (ev : val) (w : rwld) : rwld * val :=
+  let fin {A} (f : A -> val) (p : rwld * (A + exn)) : rwld * val := (fst p, enc_res f (snd p)) in
+  let d := core w in
+  let fs := filt w in
+  match asZ (vnth ev 0) with
+  | 0 => fin (fun _ : unit => VL [])
+             (dispatch r_update I (mkreq (asN (vnth ev 1)) (asN (vnth ev 2)) (Some (asZ (vnth ev 3)))) w)
+  | 1 => fin (fun _ : unit => VL []) (reset r_reset I w)
+  | 2 => fin vnat (new_scorer w)
+  | 3 => fin vnat (r_new I RKDur (asB (vnth ev 1)) w)
+  | 4 => fin (vlist VI) (scorer_call I (asN (vnth ev 1)) w)
+  | 5 => let r := asZ (vnth ev 1) in
+         let '(w', res) := run_rule I (dec_rule (VI r)) 0 w in
+         (w', enc_selres res (rule_bestb I fs d r (dec_key (vnth ev 2))) (VL []))
+  | 6 => let '(w', res) := rule_mwkr_obs I (asN (vnth ev 1)) w in
+         (w', enc_selres res (rule_bestb I fs d 2 (dec_key (vnth ev 2))) (VL []))
+  | 7 => let sfs := asLof dec_sfun (vnth ev 1) in
+         let vs := map (sfun_vec I fs d) sfs in
+         let '(w', res) := rule_tie_breaker I sfs w in
+         (w', enc_selres res (lex_bestb vs (available I d fs) (dec_key (vnth ev 2))) (vlist (vlist VI) vs))
+  | 8 => let s := dec_sfun (vnth ev 1) in
+         let v := sfun_vec I fs d s in
+         let '(w', res) := rule_score_based I s w in
+         (w', enc_selres res (max_byb (score_at v) (available I d fs) (dec_key (vnth ev 2))) (vlist VI v))
+  | _ => (w, VL [vlist enc_key (available I d fs); vlist vnat (subs w); vlist enc_robs (objs w);
+                 enc_sched (sched d)])
+  end.
+
+Fixpoint rule_events (I : instance) (evs : list val) (w : rwld) : list val :=
+  match evs with
+  | [] => []
+  | ev :: t => let '(w', out) := rule_event I ev w in out :: rule_events I t w'
+  end.
+
+Definition cmd_rule_session (v : val) : val :=
+  let I := dec_instance (vnth v 0) in
+  let fs := dec_fs (vnth v 1) in
+  VL (rule_events I (asL (vnth v 2)) (init_w robs I fs)).
+
+(** 5 — the tie-breaker loop as the UNREPAIRED code had it, on the vectors the
+    scoring functions have in the state reached by a history (used by the
+    harness only to describe the defect in a replay).
+    [I; fs; [[j p m] ...]; sfuns] -> [repaired result; unrepaired result] *)
+Definition cmd_tb_compare (v : val) : val :=
+  let I := dec_instance (vnth v 0) in
+  let fs := dec_fs (vnth v 1) in
+  let w := fold_left (fun w s => fst (dispatch r_update I
+              (mkreq (asN (vnth s 0)) (asN (vnth s 1)) (Some (asZ (vnth s 2)))) w))
+              (asL (vnth v 2)) (init_w robs I fs) in
+  let vs := map (sfun_vec I fs (core w)) (asLof dec_sfun (vnth v 3)) in
+  let av := available I (core w) fs in
+  VL [enc_sel (tb_of vs av); enc_sel (tb_unrepaired vs av)].
 
 Definition run_c04 (c : Z) (v : val) : val :=
   match c with
+  | 1 => cmd_replay v
+  | 2 => cmd_solve v
+  | 3 => cmd_call v
+  | 4 => cmd_rule_session v
+  | 5 => cmd_tb_compare v
   | _ => VL []
   end.
